@@ -43,6 +43,9 @@ type Scn struct {
 	Retain   bool     // never hand sequences back (no Finish)
 	CloseAt  int      // call Close before delivering chunk CloseAt (len(Chunks) = before the end); -1 never
 	Sched    []string `json:",omitempty"` // gate schedule (TLC action names), chunks are single symbols then
+	Tolerant bool     `json:",omitempty"` // schedule from a refuted shape of the model: a timer the code does not let fire is skipped, not drift
+	Wire     bool     `json:",omitempty"` // gaps are realised in wall-clock time on the wire, whatever the parser has consumed by then
+	PaceMs   int      `json:",omitempty"` // Wire: the consumer takes this long over every item
 }
 
 type Result struct {
@@ -299,6 +302,8 @@ func Execute(sc *Scn) (res *Result) {
 			e.g.openAll()
 			e.r.finish(io.EOF)
 		}
+	} else if sc.Wire {
+		e.wire()
 	} else {
 		e.plain()
 	}
@@ -401,13 +406,70 @@ func (e *exec) plain() {
 	e.r.finish(e.endErr())
 }
 
+// WireGap is the silence on the wire of a Wire scenario (6 x the ESC delay).
+const WireGap = 60 * time.Millisecond
+
+// wire delivers the chunks at wall-clock times that do not depend on how far
+// the parser has got: chunks separated by a short gap back to back, a long
+// gap is WireGap of silence on the wire.  The consumer runs beside it and
+// takes PaceMs over every item, so the parser is held up by the full channel
+// while the input arrives.
+func (e *exec) wire() {
+	sc := e.sc
+	pace := time.Duration(sc.PaceMs) * time.Millisecond
+	done := make(chan struct{})
+	stop := make(chan struct{})
+	go func() {
+		defer close(done)
+		for !e.chEnd {
+			select {
+			case <-stop:
+				return
+			default:
+			}
+			if e.recv(50*time.Millisecond) && !e.chEnd {
+				time.Sleep(pace)
+			}
+		}
+	}()
+	for i, c := range sc.Chunks {
+		if c.Long {
+			time.Sleep(WireGap)
+		}
+		if sc.CloseAt == i {
+			e.p.Close()
+			e.res.EarlyEnd = true
+		}
+		b, _ := hex.DecodeString(c.Hex)
+		e.r.put(b)
+	}
+	if sc.CloseAt == len(sc.Chunks) {
+		e.p.Close()
+	}
+	if sc.EndLong {
+		time.Sleep(WireGap)
+	}
+	e.r.finish(e.endErr())
+	select {
+	case <-done:
+	case <-time.After(10 * time.Second):
+		close(stop)
+		<-done
+		if !e.chEnd {
+			e.res.Hang = "channel not closed 10s after the end of input (paced consumer)"
+			e.chEnd = true // the consumer has stopped: nothing more is received
+		}
+	}
+}
+
 // schedule follows a TLC behaviour of ParserLife action by action.
 func (e *exec) schedule() {
 	sc := e.sc
 	g := e.g
 	timers := map[int]int64{} // model timer index -> goroutine id
 	doneTimers := map[int]bool{}
-	next := 0 // next chunk (symbol) to deliver
+	absent := map[int]bool{} // Tolerant: timers of the behaviour that the code did not let fire
+	next := 0                // next chunk (symbol) to deliver
 	logf := func(f string, a ...any) { e.res.Log = append(e.res.Log, fmt.Sprintf(f, a...)) }
 	// settle waits until the goroutine just released has reached its next
 	// observable point (a gate, or the reader waiting for input); when it
@@ -488,7 +550,7 @@ func (e *exec) schedule() {
 			}
 			close(a.rel)
 			settle()
-		case "RRead", "RSent", "Stutter":
+		case "RRead", "RSent", "Stutter", "RPeek", "RHand":
 			// autonomous steps of the run loop
 		case "RLock":
 			a := g.take(isRun("run.read"), 500*time.Millisecond)
@@ -498,6 +560,9 @@ func (e *exec) schedule() {
 			}
 			if processed < len(sc.Chunks) && sc.Chunks[processed].Hex == "1b" {
 				escArmedAt = time.Now()
+			}
+			if processed+1 < len(sc.Chunks) && sc.Chunks[processed].Hex == "c3" && sc.Chunks[processed+1].Hex == "a9" {
+				processed++ // the two bytes of one scalar are handed over together
 			}
 			processed++
 			close(a.rel)
@@ -529,7 +594,12 @@ func (e *exec) schedule() {
 					}
 				}
 				return true
-			}, 2*time.Second)
+			}, map[bool]time.Duration{false: 2 * time.Second, true: 150 * time.Millisecond}[sc.Tolerant])
+			if a == nil && sc.Tolerant {
+				absent[arg] = true
+				logf("%s: the code did not let this timer fire", act)
+				break
+			}
 			if a == nil {
 				e.res.Drift = "timer did not fire for " + act
 				return
@@ -539,6 +609,9 @@ func (e *exec) schedule() {
 			g.arrived = append(g.arrived, a) // stays parked until TSend
 			g.mu.Unlock()
 		case "TSend", "FLock":
+			if absent[arg] {
+				break
+			}
 			id := timers[arg]
 			a := g.take(func(a *arrival) bool { return a.point == "timer.fired" && a.gid == id }, 200*time.Millisecond)
 			if a == nil {
@@ -551,6 +624,9 @@ func (e *exec) schedule() {
 			// released by TSend/FLock the callback runs to its next gate: after
 			// its send ("timer.emitted") or, when it found its ESC no longer
 			// pending, its end ("timer.done")
+			if absent[arg] {
+				break
+			}
 			id := timers[arg]
 			a := g.take(func(a *arrival) bool {
 				return (a.point == "timer.emitted" || a.point == "timer.done") && a.gid == id
@@ -565,7 +641,7 @@ func (e *exec) schedule() {
 			close(a.rel)
 			settle()
 		case "TSet", "FSet":
-			if doneTimers[arg] {
+			if doneTimers[arg] || absent[arg] {
 				break
 			}
 			id := timers[arg]
@@ -620,17 +696,39 @@ func (e *exec) schedule() {
 	}
 }
 
-// Input returns the oracle's input: scalars with the Gap pseudo-symbol (-3)
-// wherever a long gap was realised.
+// Input returns the oracle's input: the scalars of the whole byte stream (a
+// scalar's bytes may arrive in different chunks) with the Gap pseudo-symbol
+// (-3) wherever a long gap was realised between two scalars and GapInside
+// (-4) where it was realised between the bytes of one scalar.
 func (sc *Scn) Input() []int {
 	in := []int{} // never nil: an empty input must be logged as [], TLC's Json module rejects null
+	var all []byte
+	gapAt := map[int]bool{} // byte offsets preceded by a long gap
 	for _, c := range sc.Chunks {
 		if c.Long {
-			in = append(in, -3)
+			gapAt[len(all)] = true
 		}
 		b, _ := hex.DecodeString(c.Hex)
-		s, _ := c02.Scalars(b)
-		in = append(in, s...)
+		all = append(all, b...)
+	}
+	s, off := c02.Scalars(all)
+	for k := range s {
+		end := len(all)
+		if k+1 < len(off) {
+			end = off[k+1]
+		}
+		if gapAt[off[k]] {
+			in = append(in, -3)
+		}
+		for o := off[k] + 1; o < end; o++ {
+			if gapAt[o] {
+				in = append(in, -4)
+			}
+		}
+		in = append(in, s[k])
+	}
+	if gapAt[len(all)] && len(all) > 0 {
+		in = append(in, -3)
 	}
 	if sc.EndLong {
 		in = append(in, -3)
